@@ -47,6 +47,21 @@ Proof.
   split; [exact Hr|]. unfold addTime_delta. rewrite Hr. reflexivity.
 Qed.
 
+(* ... stated for the C++ cast only where the cast is defined: static_cast<int64_t> of a double is
+   undefined unless the truncated value is an int64_t ([conv.fpint]), so the int64 range of the
+   truncated product is a hypothesis.  (It forces |seconds| < 2^63 / 10^6 < 2^44: [seconds] and the
+   product are finite doubles, far below the overflow threshold of the format, which [rnd64] --
+   FLT, unbounded above -- does not model.) *)
+Theorem addTime_product_exact_int64 m e : Z.abs m * 15625 < 2 ^ 53 -> -1080 <= e ->
+  let s := F2R (Float radix2 m e) in
+  - 2 ^ 63 <= Ztrunc (s * 1000000) < 2 ^ 63 ->
+  rnd64 (s * IZR Timestamp_addTime_factor) = (s * IZR Timestamp_addTime_factor)%R /\
+  addTime_delta s = Ztrunc (s * 1000000) /\ - 2 ^ 63 <= addTime_delta s < 2 ^ 63.
+Proof.
+  intros Hm He s Hr. destruct (addTime_product_exact m e Hm He) as [A B]. fold s in A, B.
+  split; [exact A|]. split; [exact B|]. rewrite B. exact Hr.
+Qed.
+
 (* whole seconds *)
 Theorem addTime_whole_seconds n : Z.abs n <= 576460752303 ->
   addTime_delta (IZR n) = n * 1000000 /\ forall t, addTime_value t (IZR n) = t + n * 1000000.
@@ -67,6 +82,37 @@ Proof.
   assert (E : (IZR n / IZR (2 ^ k))%R = F2R (Float radix2 n (- k))).
   { unfold F2R. cbn [Fnum Fexp]. rewrite bpow_opp. rewrite <- IZR_Zpower by lia. reflexivity. }
   destruct (addTime_product_exact n (- k) Hn ltac:(lia)) as [_ H]. cbv zeta in H. rewrite <- E in H. exact H.
+Qed.
+
+(* both special cases stay inside int64_t (|product| < 2^59), so the cast is defined there *)
+Lemma Ztrunc_bound x N : (Rabs x <= IZR N)%R -> - N <= Ztrunc x <= N.
+Proof.
+  intros H. apply Rabs_le_inv in H. destruct H as [H1 H2]. split.
+  - apply Z.le_trans with (Ztrunc (IZR (- N))); [rewrite Ztrunc_IZR; lia|]. apply Ztrunc_le. rewrite opp_IZR. exact H1.
+  - apply Z.le_trans with (Ztrunc (IZR N)); [|rewrite Ztrunc_IZR; lia]. apply Ztrunc_le. exact H2.
+Qed.
+
+Theorem addTime_whole_seconds_int64 n : Z.abs n <= 576460752303 ->
+  addTime_delta (IZR n) = n * 1000000 /\ - 2 ^ 63 <= n * 1000000 < 2 ^ 63 /\
+  forall t, addTime_value t (IZR n) = t + n * 1000000.
+Proof.
+  intros Hn. destruct (addTime_whole_seconds n Hn) as [A B]. split; [exact A|]. split; [lia|exact B].
+Qed.
+
+Theorem addTime_binary_fraction_int64 n k : Z.abs n * 15625 < 2 ^ 53 -> 0 <= k <= 1080 ->
+  addTime_delta (IZR n / IZR (2 ^ k)) = Ztrunc (IZR n / IZR (2 ^ k) * 1000000) /\
+  - 2 ^ 63 <= addTime_delta (IZR n / IZR (2 ^ k)) < 2 ^ 63.
+Proof.
+  intros Hn Hk. pose proof (addTime_binary_fraction n k Hn Hk) as E. split; [exact E|]. rewrite E.
+  assert (Hq : (1 <= IZR (2 ^ k))%R) by (apply (IZR_le 1); lia).
+  assert (Hb : (Rabs (IZR n / IZR (2 ^ k) * 1000000) <= IZR (Z.abs n * 1000000))%R).
+  { rewrite mult_IZR, abs_IZR. unfold Rdiv. rewrite !Rabs_mult. rewrite (Rabs_pos_eq 1000000) by lra.
+    rewrite Rabs_inv. rewrite (Rabs_pos_eq (IZR (2 ^ k))) by lra.
+    pose proof (Rabs_pos (IZR n)) as Hp.
+    assert (Hi : (0 < / IZR (2 ^ k) <= 1)%R).
+    { split; [apply Rinv_0_lt_compat; lra|]. rewrite <- Rinv_1. apply Rinv_le; lra. }
+    nra. }
+  pose proof (Ztrunc_bound _ _ Hb) as Hz. lia.
 Qed.
 
 (* the bound is sharp for whole seconds: this product is not a binary64 value, so it is rounded *)
